@@ -188,6 +188,17 @@ def main():
     for eqs in ("y = time;\n  z = 2 * y;", "y = -time;\n  z = y;", "z = y;\n  y = time;", "time = y;\n  z = y + 1;"):
         extra.append((f"time-alias[{eqs.split(';')[0]}]", "model S\n  Real y;\n  Real z;\nequation\n  " + eqs + "\nend S;\n",
                       [{"detect_aliases": True}, {"detect_aliases": True, "expand_mx": True}, {"detect_aliases": True, "eliminate_constant_assignments": True}]))
+    # inputs (scalar, array, created by delay) as alias partners and in the affine reduction
+    ia = [{"detect_aliases": True}, {"detect_aliases": True, "expand_mx": True}, {"detect_aliases": True, "eliminate_constant_assignments": True},
+          {"detect_aliases": True, "expand_vectors": True}, {"detect_aliases": True, "allow_derivative_aliases": False}]
+    for eqs in ("y1 = u;\n  y1 = y2;", "y1 = y2;\n  y1 = u;", "u = y1;\n  y2 = y1;", "y1 = -u;\n  y2 = -y1;", "y2 = y1;\n  y1 = u;\n", "y1 = u;\n  y2 = u;"):
+        extra.append((f"input-alias[{eqs.replace(chr(10), ' ')}]", "model S\n  input Real u;\n  Real y1;\n  Real y2;\n  Real z(start = 1);\nequation\n  " + eqs + "\n  der(z) = -z + y2;\nend S;\n", ia))
+    extra.append(("input-alias[delay]", "model S\n  Real y1;\n  Real y2;\n  Real z(start = 1);\nequation\n  y1 = delay(z, 1);\n  y1 = y2;\n  der(z) = -z + y2;\nend S;\n", ia))
+    extra.append(("input-alias[array]", "model S\n  input Real u[2];\n  Real y1[2];\n  Real y2[2];\nequation\n  y1 = u;\n  y1 = y2;\nend S;\n", ia))
+    for decl, eq in (("input Real u[2];\n  Real x[2];", "der(x) = -x + u;"), ("input Real u[3];\n  input Real w;\n  Real x[3];", "der(x[1]) = -x[1] + u[1] + w;\n  der(x[2]) = -x[2] + 3 * u[2];\n  der(x[3]) = u[3];"),
+                     ("input Real u;\n  Real x[2];", "der(x[1]) = -x[1] + u;\n  der(x[2]) = x[1] + delay(x[2], 1);"),
+                     ("Real x[2];\n  Real y[2];", "der(x) = -x + y;\n  y = delay(x, 2);")):
+        extra.append((f"affine-inputs[{decl.split(';')[0]}|{len(eq)}]", "model S\n  " + decl + "\nequation\n  " + eq + "\nend S;\n", aff))
     for col in run_parallel(ext_work, simpfam.models_ext(a.tier) + extra, a.jobs):
         rep.merge(col)
     cov = rep.coverage
@@ -203,7 +214,7 @@ def main():
     cov["bounds"] += ("; concrete supplementary stage: every model of the extended C14 families (alias links and cycles, 15 equation orientations, badly scaled affine systems) and of a family where every algebraic variable is constant-assigned with further equations before/after, that is "
                       "balanced and has a nonsingular Jacobian at a generic point, under the option sets C14 uses for it; 22 option-specific corner models: "
                       "reduce_affine_expression with 0/1/2 initial equations and time in the equations, constants and parameters given by other constants with replace_constant_values, "
-                      "equations between array elements with unexpanded / expanded arrays, time as the other side of an alias equation, and a second simplify pass with expand_vectors")
+                      "equations between array elements with unexpanded / expanded arrays, time as the other side of an alias equation, a second simplify pass with expand_vectors; 12 models with inputs (scalar, array, delay-made) as alias partners and in the affine reduction")
     rep.assumptions += ["the model family is square and uniquely solvable by construction (vk/simpfam.py)",
                         "an exception from simplify() counts as a failure of C15 (no option set in the family raises on the unchanged tree)",
                         "values are realised at the CasADi boundary"]
